@@ -7,7 +7,8 @@ AEL_TB = ["Model/Ael.lean is a hand model of the bookkeeping of SetWindCountFor.
 T_TB = "tools/cpp2lean.py: clang-14 JSON AST -> Lean translation of the listed functions (signed C++ integers as Int, uint64_t as UInt64); validated on every run by executing generated definitions against the compiled code"
 C_TB = "correspondence harness (sampling): a divergence on inputs never generated is not seen"
 
-EXTRA_GENERATORS = []
+import extract_calls
+EXTRA_GENERATORS = [extract_calls.generate]
 HOOK_COMMITS = ["eb1b8d2 verif hook H1: guarded (CLIPPER2_VERIF) active-edge-list bookkeeping events in clipper.engine.cpp"]
 NOT_CLAIMED = {}
 
@@ -93,4 +94,77 @@ PROPS = {
         rule="all listed precisions (-1000..1000, INT extremes) x in/out-of-range coordinates x delta zero/non-zero x empty rect/paths for every PathsD entry point, in both exception configurations; success part: general-position, tiny-lattice degenerate (empty, 1-2 point, duplicate, closing vertex) and 2^35-magnitude inputs x 5 clip types x 4 fill rules x paths/polytree",
         explanation="",
     ),
+    "C17": dict(
+        claimed=True,
+        level_text="Theorems: CPaths/CPathsD/CPolyTree writers produce exactly the documented flat layout, convert(create ps) = non-empty paths of ps, header cell = number of cells written, writers and readers never touch a cell outside the computed length (all path sets, all trees, both vertex dimensions); the argument-forwarding table of all 14 exported functions is regenerated from the source with clang on every run and the forwarding judgement is proved over it by decide; validation prefixes return exactly the documented negative codes for all integer arguments",
+        level_note="Lean kernel; tools/extract_calls.py (clang AST -> call table; forwarding is judged on parameter names with an explicit synonym table); marshalling models tied by cell-by-cell correspondence; the callee C++ API is not modelled: equality with the direct C++ call is sampled over all argument dimensions",
+        technique="Lean 4 theorems on marshalling models + decide over a source-regenerated call table + differential correspondence against the C++ API",
+        level="proof",
+        lean_targets=["ClipperVerif.Props.C17", "ClipperVerif.Props.C11Export"],
+        harnesses=[dict(src="C17.cpp", name="C17"),
+                   dict(src="C17.cpp", name="C17z", flags=["-DUSINGZ"])],
+        trusted_base=[LEAN_TB, C_TB,
+                      "tools/extract_calls.py: clang-14 JSON AST of clipper.export.h -> Generated/ExportCalls.lean (callee parameter names resolved from the callee declarations of the same AST; locals inlined; anything not understood becomes kind `other`/atom `unknown`, which the theorems reject); validated on every run by executing the generated validation prefixes against the compiled functions",
+                      "the `forwards` judgement compares parameter *names* (callee slot vs exported parameter, explicit synonym table in Model/ExportCalls.lean); that a callee uses its parameter as its name says is not proved here (it is what the spec-level comparison with the direct C++ call samples)",
+                      "marshalling model over unbounded Int cells: the double arrays (CPathsD/CPolyTreeD) share the layout, their counters travel as doubles (exact below 2^53); `new T[n]` never fails; a negative counter cast to size_t is modelled as a fault",
+                      "the engine / offset / rectclip / Minkowski callees are not modelled: 'returns what the C++ call returns' is established per argument slot (forwarding theorem) plus bit-identical comparison with the direct call on generated inputs"],
+        rule="per exported function: all 5 clip types x 4 fill rules x preserve_collinear x reverse_solution (Boolean, 64-bit), precisions {-8,-3,-1,0,1,2,3,5,8} (double), 4 join types x 5 end types x deltas {+-10,2.5,-3,0,0.3,60,1} x miter limits {2,1,3.5,10,0.5} x arc tolerances {0,.25,2,5} (Inflate*), random/empty rectangles (RectClip*), open/closed (Minkowski*); inputs: 0-4 paths of rectangles with collinear vertices, stars, random polygons, and 0/1/2-point paths, null arrays and [0,0] entries; marshalling: 0-6 paths of 0..12 vertices up to |coord| 2^62, trees of depth <= 4 with empty polygons; invalid arguments: clip type 0..255, fill rule {0,3,4,5,128,255,random}, precision {+-9,+-10,+-100,1000,INT_MIN/MAX}. Both with and without USINGZ. A case is distinct by its request line; non-trivial = result not empty (counted under nonempty.*)",
+        explanation="Theorems: round trip / header / no-out-of-bounds for the CPaths and CPolyTree writers and readers (all path sets, all trees, any vertex dimension); forwarding as a decidable judgement over the call table regenerated from the source on every run (holds for 10 exported functions; its negation is proved for the four Inflate* exports on the unchanged tree); validation prefix returns the documented codes for all argument values. Correspondence: model vs library cell by cell; every exported function vs the direct C++ call; Lean layout grammar judges every returned array.",
+    ),
+    "C20": dict(
+        claimed=False,  # model being updated to the repaired RDP
+        level_text="Theorems on faithful models of TrimCollinear, RamerDouglasPeucker, SimplifyPath, StripDuplicates, StripNearEqual, TranslatePath, GetBounds (all paths, all epsilon): subsequence, end points kept, shoelace area preserved, no collinear triple / fixed point / idempotence for forward-only input, RDP epsilon bound, SimplifyPath totality and fixpoint, defining equations; every model is compared bit-exactly with the real function and every clause is re-judged on real outputs in exact arithmetic",
+        level_note="Lean kernel; hand models tied by bit-exact output correspondence; doubles that are only compared are an abstract ordered parameter (instantiated with Float in the driver); IsCollinear is the source-regenerated definition",
+        technique="Lean 4 theorems on hand models + bit-exact differential correspondence + exact-arithmetic judgement of real outputs",
+        level="proof",
+        harnesses=[dict(src="C20.cpp")],
+        lean_targets=["ClipperVerif.Props.C20"],
+        trusted_base=[LEAN_TB, T_TB, C_TB,
+                      "hand-written models in Model/PathUtil.lean (TrimCollinear, RDP/RamerDouglasPeucker, SimplifyPath+GetNext/GetPrior, StripDuplicates, StripNearEqual, TranslatePath, GetBounds, Ellipse's loop skeleton) tied to the code by bit-exact output comparison only; IsCollinear inside them is the generated definition (exact by Props.C18.isCollinear_int128_exact)",
+                      "int64 coordinate differences do not overflow (|coordinate| <= 2^62): the models use unbounded Int; GetBounds' min/max theorem assumes int64-range coordinates",
+                      "PerpendicDistFromLineSqrd, Sqr(epsilon), MAX_DBL, 0.0 and NearEqual are abstract parameters (DistOps / eqv) of the models; theorems assume only: `le` is a total preorder (DistLaws), dist2(p,a,b) <= 0 when p is a or b (RDP), epsSqr >= 0 (RDP), epsSqr < MAX_DBL (SimplifyPath end points), dist2(q,a,b) = dist2(q,b,a) (SimplifyPath fixpoint, closed paths: exact in real arithmetic, last-bit differences possible in doubles); a > b is modelled as not (a <= b), exact in the absence of NaN (none arises for int64 inputs and epsilon >= 0); the driver instantiates the parameters with Float (IEEE binary64, same expression trees, -ffp-contract=off)",
+                      "SimplifyPath's inner do-while (iterated GetNext from an unflagged start) is modelled as a search through the cyclic index range start+1..high,0..start-1",
+                      "Ellipse and Length have Float models compared bit-exactly (glibc sin/cos shared with the harness) and spec-level judgements only; the only theorem about them is Ellipse's vertex count",
+                      "spec-level distance judgements (RDP_EPS, SIMPLIFY_FIXPOINT) are exact rationals with a relative slack of 2^-40 and are only emitted for |coordinate| <= 2^24, where the C++ double arithmetic is exact up to the final roundings; larger coordinates are covered by the bit-exact model comparison"],
+        rule="G-PATH: empty, all 1-point and sampled 2-point paths on a 3x3 lattice (all in thorough), 3/4-point lattice paths (exhaustive 3-point in thorough), then random / all-collinear / repeated points / spikes / subdivided polygons (forward-only) / staircases / front==back in coordinate classes 2, 6, 40, 10^6, 2^40; epsilon in {0, denormal, 1e-9, 1, 2.5, 1e100, two scale-relative values}; Ellipse radii {<=0, 0.3 .. 1e6} x steps {0,1,2,3,4,7,16,100}; a case is distinct by its request line; non-trivial counts (something removed / unchanged, forward-only inputs) are in input_distribution. RDP spec records are not emitted for front()==back() paths (known finding kf.rdp-closed-front-back, fixed witness emitted under that label); SimplifyPath's generic 'huge' epsilon is 1e100 (known finding kf.simplify-open-huge-eps for epsilon >= 1.35e154, fixed witness under that label)",
+        explanation="Theorems on the models (all inputs): subsequence for TrimCollinear/RDP/SimplifyPath; end points kept (TrimCollinear open; RDP when front != back; SimplifyPath open when epsSqr < MAX_DBL) with proved counterexamples for the excluded cases on the faithful model; TrimCollinear preserves shoelace area exactly, and for forward-only input leaves no three (cyclically) consecutive collinear vertices, is the identity on such output and idempotent; RDP leaves every removed vertex within epsilon of the line through its surviving neighbours when front != back; SimplifyPath never faults or runs out of fuel and on exit no remaining vertex is removable; StripDuplicates equals run-collapsing; StripNearEqual/StripDuplicates contract; TranslatePath, GetBounds (min/max, invalid rect for empty), Ellipse vertex count. Correspondence: every model bit-exact against the real function; every clause judged on the real output by exact arithmetic in Lean.",
+    ),
+
 }
+
+OFFSET_TB = [
+    "ClipperVerif/Model/OffsetFrame.lean is a hand model of Group ctor / ExecuteInternal / DoGroupOffset / BuildNormals / OffsetPolygon / OffsetOpenJoined / OffsetOpenPath and of the branch skeleton of OffsetPoint; it is tied to the code by output-level correspondence only (harness/OffsetFrame.cpp: Group fields, BuildNormals bit patterns, loop index sequences and both normal-reversal blocks observed through a DeltaCallback64, OffsetPoint branch via the private method, members after Execute)",
+    "abstract parameters of the frame theorems (hold for every value): GetUnitNormal, sine/cosine of two normals, the vertices produced by DoRound/DoMiter/DoSquare/DoBevel/Ellipse, the clean-up union (Clipper64) — none of these is modelled",
+    "numbers in the frame model are rationals; the doubles 0.999, 1e-12, 0.002 and temp_lim_ are represented by the decimal fractions written in the source; deltaCallback64_ is null; Area(path)<0 is the sign of the exact shoelace sum (exact below 2^53)",
+    "the headline clause (result = delta-envelope within arc tolerance + 2 + 0.1%|delta|; stroke width and caps) is NOT a theorem: it is decided by the executable Lean Spec (ClipperVerif/Spec/Offset.lean, exact integer/rational arithmetic) judging real results at sampled probe points and at the result's own vertices",
+    "reading of the statement used by the Spec: 'arc tolerance' = the requested value, or |delta|/500 when left at 0 (documented default); sqrt(2) is bounded above by 1.41422 on outer bounds; rectangles swept by edges are kept one tolerance away from their end lines",
+]
+
+PROPS["C06"] = dict(
+    claimed=True,
+    level_text="Theorems on the control-frame model of ClipperOffset (sign of group delta, orientation flag, fill rule of the clean-up union, |delta|<0.5 pass-through, concave/miter/round/square/bevel branch selection, miter test = miter length within limit). The headline clause (result = delta-envelope within tolerance; sandwich bounds; orientation; over-shrink) is decided by an executable Lean Spec in exact rational arithmetic judging real results at probe points",
+    level_note="Lean kernel; hand frame model tied by output-level correspondence through private-state access; geometry primitives and the clean-up union are abstract parameters; envelope claim sampled, not proved",
+    technique="Lean 4 theorems on a control-frame model + exact-arithmetic Lean Spec as oracle for real outputs",
+    audits=["C06"],
+    level="other",
+    harnesses=[dict(src="C06.cpp"), dict(src="OffsetFrame.cpp")],
+    trusted_base=[LEAN_TB, C_TB] + OFFSET_TB,
+    rule="G-SIMPLE: star-shaped / rectilinear / few-vertex outer polygons (sizes 50..1e6 log-uniform, optional anisotropic stretch, collinear midpoints), 0-3 star-shaped holes, occasional island in a hole and second polygon at gap 1..size; simplicity, containment and the 10-degree turning margin are verified with exact integer tests and the input rejected otherwise; both orientation conventions, shuffled path order and start vertices; delta = k/8 log-uniform 1..size/3 of either sign, over-shrink (size..2 size), |delta|<0.5 (incl. 0); 4 join types, miter limits 2..5, arc tolerances 0(default)..5; 6 API variants (InflatePaths, ClipperOffset Paths64/PolyTree64, ReverseSolution, preserve_collinear, two groups, object used before). ~120 probes per case (uniform in the enlarged box, at delta+-tol+-eps along edge normals / around vertices, around the result's own edges); a case is distinct by its request line; every case is non-trivial (>=1 decisive probe; measured ratio of decisive probes ~80%)",
+    explanation="Theorems (frame model): sign of group_delta_ for polygon groups, is_reversed = lowest path negatively oriented, fill rule / ReverseSolution of the clean-up union, |delta|<0.5 passes the input through, concave-join condition, join selection table, miter test = miter length within the limit (algebra over Q). Spec-level (OFFSETCHECK): envelope within tolerance for round joins, sandwich bounds for miter/square/bevel, orientation, over-shrink, small delta; model-level: 9k records per quick run agree between the model and the compiled code.",
+)
+
+PROPS["C07"] = dict(
+    claimed=True,
+    level_text="Theorems on the control-frame model (index safety of the open/joined/polygon passes, normal reversal = normals of the reversed path, +delta/-delta symmetry of the whole frame for open groups, frame locality with proved counter-witnesses for the state leaks). Stroke shape and caps are decided by the exact-arithmetic Lean Spec judging real results; +-delta equality, direction independence and independence of distant paths by metamorphic correspondence",
+    level_note="Lean kernel; hand frame model tied by output-level correspondence; geometry primitives abstract; stroke shape sampled, not proved",
+    technique="Lean 4 theorems on a control-frame model + exact-arithmetic Lean Spec as oracle + metamorphic correspondence",
+    audits=["C07"],
+    level="other",
+    harnesses=[dict(src="C07.cpp"), dict(src="OffsetFrame.cpp")],
+    trusted_base=[LEAN_TB, C_TB] + OFFSET_TB + [
+        "2-point path under EndType::Joined: the Spec expects the documented behaviour (round cap for round joins, square cap otherwise)",
+        "kf-empty-path modes of harness/C07.cpp (UB on an empty path in a non-Polygon group) abort the process and are therefore not part of the normal run: run `<binary> 1 quick kf-empty-path` / `kf-empty-path-joined`",
+    ],
+    rule="G-OPEN: 1-4 polylines per call (45% single), each a single point (10%), 2 points (20%) or 3-8 points built as a random walk with segment lengths size/64..size and turns up to +-165 degrees (8% straight-on), self-crossing allowed, optional consecutive duplicate points / closing duplicate; turning margin (incl. closure for Joined) verified exactly; sizes 50..1e6; |delta| = k/8 log-uniform 1..size/2 (3%: 0.5..0.875), sign random; 4 join x 4 end types, miter limits 2..5, arc tolerances 0..5; 4 API variants (InflatePaths, one group, one group per path, PolyTree64). Per case: STROKECHECK (~130 probes), +delta/-delta canonical equality, reversed paths (region, tolerance band), added distant path on any side (region equality; canonical equality counted). With the known defects present the generator keeps 2-point paths last in Joined groups, emits no empty paths and keeps |delta|>=0.5; the specific defect inputs are emitted under kf.* labels.",
+    explanation="Theorems (frame model): index safety of OffsetPolygon/OffsetOpenJoined/OffsetOpenPath for non-empty paths and the out-of-range read on an empty path; the reversal loop gives the backward pass the normals of the reversed path; the frame is identical for +delta and -delta in non-Polygon groups; frame locality is false on the current tree (two proved witnesses) and holds when no Joined group has a 2-point path and every Polygon group has a point. Spec-level (STROKECHECK/SAMEPATHS/SAMEREGION): stroke region with caps within tolerance; model-level: 9k records per quick run.",
+)
